@@ -80,6 +80,7 @@ def main():
     checks = None
     keep = None
     tier = "quick"
+    own_first = False
     a = sys.argv[3:]
     while a:
         if a[0] == "--checks":
@@ -91,6 +92,10 @@ def main():
         elif a[0] == "--tier":
             tier = a[1]
             a = a[2:]
+        elif a[0] == "--own-first":
+            # the property's own check (plus the checks that caught the change before); the others only if none of these catches it
+            own_first = True
+            a = a[1:]
         else:
             a = a[1:]
     patch = os.path.join(mdir, "patch.diff")
@@ -135,6 +140,16 @@ def main():
     eff = os.path.join(tempfile.gettempdir(), "seed-effective-%d.diff" % os.getpid())
     open(eff, "w").write(res["effective_patch"])
     order = checks or ([prop] + [p for p in PROPS if p != prop])
+    rest = []
+    if own_first and not checks:
+        prev = []
+        try:
+            prev = json.load(open(os.path.join(VERIF, "seeded", keep or "", "meta.json"))).get("caught_by", [])
+        except Exception:
+            pass
+        first = [prop] + [p for p in prev if p != prop and p in PROPS]
+        rest = [p for p in PROPS if p not in first]
+        order = first
     res["checks"] = {}
     try:
         rc, out = sh(["git", "-C", REPO, "apply", "--whitespace=nowarn", eff])
@@ -153,6 +168,9 @@ def main():
             with ThreadPoolExecutor(max_workers=int(os.environ.get("SEEDTEST_PAR", "5"))) as ex:
                 for p, r in ex.map(one, order):
                     res["checks"][p] = r
+                if rest and not any(r["rc"] == 1 for r in res["checks"].values()):
+                    for p, r in ex.map(one, rest):
+                        res["checks"][p] = r
     finally:
         sh(["git", "-C", REPO, "checkout", "--", "."])
         os.remove(eff)
@@ -174,8 +192,9 @@ def main():
             "confirmed": {k: res.get(k) for k in ("repo_head", "suite_passes_with_patch", "suite_failures_with_patch", "demo_fails_with_patch", "demo_passes_without_patch")},
             "what_was_run": ["scratch worktree of /repo HEAD + patch: go build ./... && go test -vet=off -count=1 ./...",
                              "demo_test.go placed in ./%s with and without the patch" % demo_location(demo),
-                             "patch applied to /repo, ./check <id> %s for every property, git -C /repo checkout -- ." % tier],
+                             "patch applied to /repo, ./check <id> %s for %s, git -C /repo checkout -- ." % (tier, "every property" if len(res["checks"]) == len(PROPS) else "the properties listed under checks (the others were not run)")],
             "checks": res["checks"], "caught_by": res["caught_by"],
+            "harness_commit": sh(["git", "-C", VERIF, "log", "--format=%h", "-1", "--", "harness", "check"])[1].strip(),
         }
         json.dump(meta, open(os.path.join(d, "meta.json"), "w"), indent=1)
     out = {k: v for k, v in res.items() if k not in ("effective_patch", "demo_with_patch_tail")}
